@@ -63,6 +63,12 @@ def lemma_obligations(R, prop):
                 oc.atoms = ex.atoms
                 out.append(oc)
             for suffix, extra in variants:
+                # cover: the hypotheses of the lemma (in this case) are satisfiable -- a contradictory set of contract clauses would
+                # prove anything.  unknown within the budget counts as satisfiable; unsat makes the check exit 3 (check.finish)
+                cs = z3.Solver()
+                cs.set('timeout', 5000)
+                cs.add(*(assumptions + extra))
+                R.covers.append(('lemma#' + lo.name + suffix, 'hypotheses-satisfiable', str(cs.check())))
                 o = symex.Obligation('lemma#' + lo.name + suffix, 'lemma', f.__name__, None, assumptions + extra, goal,
                                      {'no_entry_state': True})
                 if lo.timeout:
